@@ -24,6 +24,9 @@ def _simple(e):
         return all(_simple(x) for x in e.elts)
     if isinstance(e, ast.UnaryOp) and isinstance(e.op, ast.USub):
         return _simple(e.operand)
+    if isinstance(e, ast.Lambda):
+        a = e.args
+        return not (a.defaults or a.kw_defaults or a.vararg or a.kwarg or a.kwonlyargs or a.posonlyargs)
     return False
 
 
@@ -58,6 +61,25 @@ class _Subst(ast.NodeTransformer):
     def visit_Name(self, node):
         if isinstance(node.ctx, ast.Load) and node.id in self.mapping:
             return ast.copy_location(copy.deepcopy(self.mapping[node.id]), node)
+        return node
+
+
+class _Beta(ast.NodeTransformer):
+    """(lambda a, b: body)(x, y) -> body[a := x, b := y]  when every argument is simple or used at most once"""
+
+    def visit_Call(self, node):
+        self.generic_visit(node)
+        f = node.func
+        if isinstance(f, ast.Lambda) and not node.keywords and len(node.args) == len(f.args.args) and not any(isinstance(a, ast.Starred) for a in node.args):
+            names = [a.arg for a in f.args.args]
+            uses = {n: 0 for n in names}
+            for x in ast.walk(f.body):
+                if isinstance(x, ast.Name) and x.id in uses:
+                    uses[x.id] += 1
+                if isinstance(x, ast.Lambda) and x is not f:
+                    return node
+            if all(_simple(a) or uses[n] <= 1 for n, a in zip(names, node.args)):
+                return ast.copy_location(_Subst(dict(zip(names, node.args))).visit(copy.deepcopy(f.body)), node)
         return node
 
 
@@ -346,6 +368,7 @@ class Unroller(ast.NodeTransformer):
             for s in stmts:
                 s2 = _Subst(m).visit(copy.deepcopy(s))
                 s2 = _FoldAttr().visit(s2)
+                s2 = _Beta().visit(s2)
                 for n in ast.walk(s2):
                     n._uidx = (k,) + getattr(n, "_uidx", ())
                 out.append(s2)
